@@ -194,3 +194,35 @@ pub fn policy_of(p: cqlref::retry::Policy) -> std::sync::Arc<dyn scylla::policie
         cqlref::retry::Policy::Fallthrough => std::sync::Arc::new(FallthroughRetryPolicy::new()),
     }
 }
+
+/// Keeps, per violation key, the smallest failing case (by `size`, then by the case's JSON text), so that the
+/// reported counterexample does not depend on which worker thread got there first.
+#[derive(Default)]
+pub struct MinViolations(std::sync::Mutex<std::collections::BTreeMap<String, (usize, String, String, serde_json::Value)>>);
+
+impl MinViolations {
+    pub fn add(&self, key: &str, size: usize, text: String, case: serde_json::Value) {
+        let cs = case.to_string();
+        let mut g = self.0.lock().unwrap();
+        match g.get(key) {
+            Some((s, c, _, _)) if (*s, c.as_str()) <= (size, cs.as_str()) => {}
+            _ => {
+                g.insert(key.to_string(), (size, cs, text, case));
+            }
+        }
+    }
+    pub fn has(&self, key: &str) -> bool {
+        self.0.lock().unwrap().contains_key(key)
+    }
+    pub fn len(&self) -> usize {
+        self.0.lock().unwrap().len()
+    }
+    pub fn is_empty(&self) -> bool {
+        self.len() == 0
+    }
+    pub fn flush(&self, r: &vcore::Report) {
+        for (k, (_, _, text, case)) in self.0.lock().unwrap().iter() {
+            r.violation(k, text, case.clone());
+        }
+    }
+}
